@@ -60,10 +60,12 @@ pub fn request_nonce(proto: Proto, pkt: &[u8]) -> Option<Vec<u8>> {
 /// Run the real client against `sock`; `respond` produces the datagram for each request
 /// (None = send nothing).
 pub fn run_client(ctx: &Ctx, proto: Proto, key: Option<(&[u8], KeyEnc)>, mode: Mode, n: usize, extra: &[&str], respond: &mut dyn FnMut(&ClientReq) -> Option<Vec<u8>>) -> Result<ClientRun, String> {
-    let sock = UdpSocket::bind("127.0.0.1:0").map_err(|e| e.to_string())?;
+    // "v6": the harness responder listens on the IPv6 loopback (the client then binds [::]:0)
+    let v6 = extra.contains(&"v6");
+    let sock = UdpSocket::bind(if v6 { "[::1]:0" } else { "127.0.0.1:0" }).map_err(|e| e.to_string())?;
     crate::inproc::set_rcvbuf(std::os::unix::io::AsRawFd::as_raw_fd(&sock), 1 << 20);
     let port = sock.local_addr().unwrap().port();
-    let mut args: Vec<String> = vec!["127.0.0.1".into(), port.to_string(), "-p".into(), if proto == Proto::Classic { "0".into() } else { "13".into() }, "-t".into(), "4".into(), "-n".into(), n.to_string()];
+    let mut args: Vec<String> = vec![if v6 { "::1".into() } else { "127.0.0.1".into() }, port.to_string(), "-p".into(), if proto == Proto::Classic { "0".into() } else { "13".into() }, "-t".into(), "4".into(), "-n".into(), n.to_string()];
     // "tz=<zone>": local-time rendering (no -z) in that zone; otherwise UTC with -z
     let tz = extra.iter().find_map(|e| e.strip_prefix("tz="));
     if tz.is_none() {
@@ -631,6 +633,10 @@ pub fn run_c01(ctx: &Ctx, out: &mut Out) {
             extra.push("outfiles");
             out.obs("runs_with_output_files", 1);
         }
+        if rng.chance(1, 6) {
+            extra.push("v6");
+            out.obs("runs_over_ipv6_loopback", 1);
+        }
         let res = run_client(ctx, proto, Some((&pk, enc)), mode, n, &extra, &mut |cr| {
             let b = batch_for(&mut rr, proto);
             if cr.index == forged_at {
@@ -863,6 +869,10 @@ pub fn run_c03(ctx: &Ctx, out: &mut Out) {
         if rng.chance(1, 5) {
             extra.push("outfiles");
             out.obs("runs_with_output_files", 1);
+        }
+        if rng.chance(1, 6) {
+            extra.push("v6");
+            out.obs("runs_over_ipv6_loopback", 1);
         }
         let res = run_client(ctx, proto, key, mode, n, &extra, &mut |cr| {
             let d = forger.honest(cr, &batches[cr.index], &mut rr).assemble();
